@@ -11,6 +11,9 @@ const KEYS: [&str; 2] = ["a", "n"]; // a: text values; n: integer (starts at 100
 
 #[derive(Clone, Debug, Serialize, Deserialize, PartialEq)]
 pub enum W {
+    /// a plain write of the constant text `same-text` to key a: two of them in a row store the text the key already
+    /// holds, and each is a mutation that has to be notified
+    SetSame,
     Set { k: usize },
     SetSafeFresh { k: usize },
     SetSafeStale { k: usize },
@@ -57,6 +60,7 @@ fn w_strategy() -> impl Strategy<Value = W> {
     let k = 0..2usize;
     prop_oneof![
         5 => Just(W::Set { k: 0 }),
+        2 => Just(W::SetSame),
         2 => Just(W::SetSafeFresh { k: 0 }),
         1 => Just(W::SetSafeStale { k: 0 }),
         3 => select(vec![1, 2, 3]).prop_map(|n| W::Inc { n }),
@@ -113,6 +117,7 @@ fn writer_line(w: &W, ci: usize, oi: usize, cur_ver: &dyn Fn(usize) -> i32) -> (
     let m = |key: usize, value: Option<String>, kind: &'static str| Mutation { key, value, kind, ok: false, start: 0, end: 0 };
     match w {
         W::Set { k } => (format!("set {} {}", KEYS[*k], val), m(*k, Some(val.clone()), "set")),
+        W::SetSame => ("set a same-text".to_string(), m(0, None, "same")),
         W::SetSafeFresh { k } => (format!("set-safe {} {} {}", KEYS[*k], cur_ver(*k) + 50, val), m(*k, Some(val.clone()), "set")),
         W::SetSafeStale { k } => (format!("set-safe {} 0 {}", KEYS[*k], val), m(*k, Some(val.clone()), "set")),
         W::Inc { n } => (format!("increment n {}", n), m(1, None, "inc")),
@@ -325,6 +330,16 @@ pub fn run_case(ctx: &Ctx, case: &Case) -> Result<Outcome, String> {
                 if removed_lines < rm_inside || removed_lines > rm_possible {
                     fail = Some((format!("C03|removed-notifications|{}", if removed_lines < rm_inside { "missed" } else { "too-many" }), format!("subscriber {} key {}: {} 'removed' lines, {} removes strictly inside a subscription, {} possibly; intervals {:?}; muts {:?}; lines {:?}; trace {:?}", si, key, removed_lines, rm_inside, rm_possible, intervals, muts, sub.lines, info.trace)));
                     break 'subs;
+                }
+                // writes of the constant text: counted
+                if k == 0 {
+                    let same_lines = sub.lines.iter().filter(|l| **l == "changed a same-text\n").count();
+                    let same_inside = muts.iter().filter(|m| m.kind == "same" && m.ok && strictly_inside(m)).count();
+                    let same_possible = muts.iter().filter(|m| m.kind == "same" && m.ok && possibly(m)).count();
+                    if same_lines < same_inside || same_lines > same_possible {
+                        fail = Some((format!("C03|same-text-notifications|{}", if same_lines < same_inside { "missed" } else { "too-many" }), format!("subscriber {}: {} 'changed a same-text' lines, {} such writes strictly inside a subscription, {} possibly; received {:?}; trace {:?}", si, same_lines, same_inside, same_possible, sub.lines, info.trace)));
+                        break 'subs;
+                    }
                 }
                 // increments: counted (their values are not unique across schedules)
                 if k == 1 {
